@@ -31,6 +31,7 @@ class World:
     def __init__(self, ctx, eng, st, definite=True, cached=None, closed=False):
         self.ctx, self.eng = ctx, eng
         self.definite = definite
+        eng.default_replay = "C08.histories"
         ns = ctx.ns("term_image.renderable._enum")
         self.Seek, self.FrameCount, self.FrameDuration = ns.d["Seek"], ns.d["FrameCount"], ns.d["FrameDuration"]
         self.N = z3.Int("N")
